@@ -23,6 +23,7 @@ type SpecCtx struct {
 	pkg     *types.Package
 	depth   int
 	binders int
+	loopHead *ssa.BasicBlock
 }
 
 type specFail struct{ msg string }
@@ -304,6 +305,16 @@ func (c *SpecCtx) localVar(name string) (Val, bool) {
 		return Val{}, false
 	}
 	var pick *ssa.Alloc
+	if want == "rangeindex" && c.loopHead != nil && occ < 0 {
+		// the hidden index of *this* range loop
+		for _, in := range c.loopHead.Instrs {
+			if st, ok := in.(*ssa.Store); ok {
+				if a, ok := st.Addr.(*ssa.Alloc); ok && a.Comment == "rangeindex" {
+					cands = []*ssa.Alloc{a}
+				}
+			}
+		}
+	}
 	if occ >= 0 {
 		if occ < len(cands) {
 			pick = cands[occ]
